@@ -304,7 +304,20 @@ def make_app_classes():
             pid = self.w.payloads.resolve(payload.data, payload.metadata)
             self.w.rec.log(self.ep, 'cb_setup', pid=pid)
             self.w.setup_seen.append((bytes(data_encoding), bytes(metadata_encoding), pid))
-            if self.w.opts.get('on_setup_raises'):
+            how = self.w.opts.get('on_setup_raises')
+            if how in ('protocol_error', 'stream_id_in_use', 'subclass'):
+                # what an application's on_setup may well let escape: an error of the library's own exception type (a setup payload checked
+                # against an upstream RSocket service which answered ERROR[REJECTED]; a helper that raised RSocketStreamIdInUse ...)
+                from rsocket.exceptions import RSocketProtocolError, RSocketStreamIdInUse
+                from rsocket.error_codes import ErrorCode
+                if how == 'stream_id_in_use':
+                    raise RSocketStreamIdInUse(7)
+                if how == 'subclass':
+                    class UpstreamRejected(RSocketProtocolError):
+                        pass
+                    raise UpstreamRejected(ErrorCode.APPLICATION_ERROR, data='upstream said no')
+                raise RSocketProtocolError(ErrorCode.REJECTED, data='upstream rejected the credentials')
+            if how:
                 raise RuntimeError('app: on_setup raised')
 
         async def on_metadata_push(self, payload):
